@@ -32,7 +32,16 @@ def build(repo, verif, workdir, log):
 
 
 def run(binary, args, timeout=300, crit="bytes"):
-    p = subprocess.run([binary] + [str(a) for a in args], capture_output=True, text=True, timeout=timeout, env=dict(os.environ, TWIN_CRIT=crit))
+    try:
+        p = subprocess.run([binary] + [str(a) for a in args], capture_output=True, text=True, timeout=timeout, env=dict(os.environ, TWIN_CRIT=crit))
+    except subprocess.TimeoutExpired as e:
+        # a search that never returns: the last CASE marker names the input the real code hangs on
+        out = e.stdout.decode() if isinstance(e.stdout, bytes) else (e.stdout or "")
+        cases = re.findall(r"^CASE (\S*)$", out, re.M)
+        if cases:
+            return {"rc": -9, "found": True, "kind": "tokens", "input": cases[-1], "detail": f"the real code did not return within {timeout}s on this input (hang)",
+                    "tried": len(cases), "stdout": out[-500:], "stderr": ""}
+        raise
     out = p.stdout
     w = re.search(r"^WITNESS kind=(\S+) input=(.*)$", out, re.M)
     d = re.search(r"^DETAIL (.*)$", out, re.M)
